@@ -4,7 +4,11 @@
 package main
 
 import (
+	"bytes"
+	"context"
 	"encoding/json"
+	"net/http"
+	"net/http/httptest"
 	"flag"
 	"fmt"
 	"math"
@@ -16,6 +20,7 @@ import (
 
 	"github.com/pingcap/kvproto/pkg/metapb"
 	"github.com/pingcap/log"
+	"github.com/tikv/pd/server/api"
 	"github.com/tikv/pd/server/cluster"
 	"github.com/tikv/pd/server/config"
 	"github.com/tikv/pd/server/core"
@@ -787,6 +792,84 @@ func genCluster(r *rng.R) caseJ {
 	return c
 }
 
+// ---------- the HTTP layer: rule updates through the real router, judged by the fits of the real cluster ----------
+// Stores as in the cluster stream. A rule with a label constraint is set through POST /config/rule; then an
+// update of that rule is REFUSED (count 0, other constraint values): RaftCluster.FitRegion must answer as
+// before; then an update that changes only the constraint is ACCEPTED: a second RuleManager started on the
+// storage must fit the region as the leader's does.
+func apiFit(R *res.Result, r *rng.R, tag string) {
+	c := genCluster(r)
+	rc := clusterSetup(&c)
+	h, _, err := api.NewHandler(context.Background(), theSrv.S)
+	if err != nil {
+		panic(err)
+	}
+	m := rc.GetRuleManager()
+	var steps []map[string]interface{}
+	post := func(body map[string]interface{}) int {
+		b, _ := json.Marshal(body)
+		rec := httptest.NewRecorder()
+		h.ServeHTTP(rec, httptest.NewRequest("POST", "/pd/api/v1/config/rule", bytes.NewReader(b)))
+		steps = append(steps, map[string]interface{}{"post": body, "code": rec.Code})
+		return rec.Code
+	}
+	zones := map[string]bool{}
+	for _, st := range c.Stores {
+		for _, l := range st.Labels {
+			if l[0] == "zone" {
+				zones[l[1]] = true
+			}
+		}
+	}
+	var zs []string
+	for _, z := range valsOf["zone"] {
+		if zones[z] {
+			zs = append(zs, z)
+		}
+	}
+	if len(zs) == 0 {
+		R.Count("apifit:no-zone")
+		return
+	}
+	rule := func(count int, op, zone string) map[string]interface{} {
+		return map[string]interface{}{"group_id": "g", "id": "r1", "role": "voter", "count": count, "start_key": "", "end_key": "",
+			"label_constraints": []map[string]interface{}{{"key": "zone", "op": op, "values": []string{zone}}}, "location_labels": []string{"host"}}
+	}
+	fitOf := func(x *placement.RuleManager) string { return observe(R, x.FitRegion(rc, mkRegion(c.A))).Coq }
+	replay := func() interface{} {
+		return map[string]interface{}{"stream": "apifit", "puts": c.Puts, "a": c.A, "steps": steps}
+	}
+	defer func() { _ = m.DeleteRule("g", "r1") }()
+	z0 := zs[r.Intn(len(zs))]
+	if post(rule(1+r.Intn(3), "in", z0)) != http.StatusOK {
+		R.Count("apifit:first-rule-refused")
+		return
+	}
+	before := fitOf(m)
+	other := []string{"z7", "z8", zs[r.Intn(len(zs))]}[r.Intn(3)]
+	if code := post(rule(0, []string{"in", "notIn"}[r.Intn(2)], other)); code == http.StatusOK {
+		R.Count("apifit:invalid-accepted")
+	} else if after := fitOf(m); after != before {
+		R.Violate("C12:refused-rule-update-changed-the-fit", fmt.Sprintf("%s: POST /config/rule answered %d; RuleManager.FitRegion before: %s after: %s", tag, code, before, after), replay())
+	}
+	z1 := zs[r.Intn(len(zs))]
+	op1 := []string{"in", "notIn"}[r.Intn(2)]
+	if op1 == "notIn" && len(zs) == 1 && z1 == zs[0] {
+		op1 = "in"
+	}
+	if code := post(rule(1+r.Intn(3), op1, z1)); code != http.StatusOK {
+		R.Count(fmt.Sprintf("apifit:update-refused-%d", code))
+		return
+	}
+	m2 := placement.NewRuleManager(theSrv.S.GetStorage(), rc)
+	if err := m2.Initialize(3, nil); err != nil {
+		R.Violate("C12:two-managers-fit-against-different-rules", fmt.Sprintf("%s: a second manager cannot start after an accepted POST /config/rule: %v", tag, err), replay())
+	} else if a, b := fitOf(m), fitOf(m2); a != b {
+		R.Violate("C12:two-managers-fit-against-different-rules", fmt.Sprintf("%s: after an accepted POST /config/rule the leader fits the region as %s, a manager started on the storage as %s", tag, a, b), replay())
+	}
+	R.Count("stream:apifit")
+}
+
 func run(R *res.Result, c *caseJ) outcome {
 	ss := mkStores(c.Stores)
 	var mgr *placement.RuleManager
@@ -961,6 +1044,7 @@ func main() {
 	out := flag.String("out", ".", "output directory")
 	tier := flag.String("tier", "quick", "")
 	nlock := flag.Int("lockwait", 0, "number of manager cases run while a writer holds the cluster lock (60..90 ms each)")
+	napifit := flag.Int("apifit", 0, "number of runs of the HTTP-layer class (rule updates through the real router, judged by RaftCluster fits)")
 	ncluster := flag.Int("cluster", 0, "number of cases whose stores live in a real pd server's RaftCluster")
 	corpus := flag.String("corpus", "", "json file: list of raw cases run first")
 	replay := flag.String("replay", "", "json file: one raw case (or an evidence replay file) to run and print")
@@ -1070,6 +1154,9 @@ func main() {
 		}
 		for k := 0; k < *ncluster; k++ {
 			emit(genCluster(master.Fork(uint64(2000000 + k))))
+		}
+		for k := 0; k < *napifit; k++ {
+			apiFit(R, master.Fork(uint64(3000000+k)), fmt.Sprintf("seed %d apifit run %d", *seed, k))
 		}
 		for k := uint64(0); *nex != 0 && (*nex < 0 || k < uint64(*nex)); k++ {
 			// the exhaustive stream is visited in a seed-dependent stride so that successive quick runs cover different parts
